@@ -9,6 +9,7 @@
 import GeoModel.PolygonSM
 import GeoModel.Traverse
 import GeoModel.Gen.RectGen
+import GeoProofs.Lemmas.TRANPolygonSM
 import GeoModel.Area
 import GeoModel.Affine
 import Mathlib.Tactic.NormNum
@@ -214,5 +215,27 @@ theorem rect_kernels_eq_source :
     by_cases h1 : a.x < b.x <;> by_cases h2 : a.y < b.y <;> simp [h1, h2]
   · unfold rectCenter Gen.rectCenter
     norm_num
+
+/-! ### tie to the source: the `Polygon` state machine regenerated from geo-types (TRAN) -/
+
+/-- [E2] `LineString::close` (`if !self.is_closed() { self.0.push(self.0[0]) }`), `Polygon::new` (close the exterior, close
+every interior in place, build the struct) and the five mutators — `exterior_mut`, `try_exterior_mut` (result saved, ring
+re-closed, result returned: the code after the `fix:` commit), `interiors_mut`, `try_interiors_mut`, `interiors_push` — are
+regenerated from geo-types/src/geometry/{line_string,polygon}.rs on every run (`Vec::push` = append, `for r in &mut v` =
+map, a closure parameter = `RingFn` / `RingsFn`, a `&mut [_]` closure cannot change the length = `fitLen`) and equal
+`close`, `mkNew` and every clause of `step`: the invariant theorems above are theorems about terms read off the source. -/
+theorem polygon_sm_eq_source {α : Type} [DecidableEq α] [Inhabited α] :
+    (∀ r : List α, close r = Gen.lineStringClose r) ∧
+    (∀ (e : List α) is, mkNew e is = Gen.polygonNew e is) ∧
+    (∀ (s : State α) e is, step s (.new e is) = (Gen.polygonNew e is, true)) ∧
+    (∀ (s : State α) f, step s (.exteriorMut f) = (Gen.polygonExteriorMut s f, true)) ∧
+    (∀ (s : State α) f, step s (.tryExteriorMut f) = Gen.polygonTryExteriorMut s f) ∧
+    (∀ (s : State α) f, step s (.interiorsMut f) = (Gen.polygonInteriorsMut s f, true)) ∧
+    (∀ (s : State α) f, step s (.tryInteriorsMut f) = Gen.polygonTryInteriorsMut s f) ∧
+    (∀ (s : State α) r, step s (.interiorsPush r) = (Gen.polygonInteriorsPush s r, true)) :=
+  ⟨Geo.Proofs.TRANPolygonSM.close_eq, Geo.Proofs.TRANPolygonSM.mkNew_eq,
+   fun s => (Geo.Proofs.TRANPolygonSM.step_eq s).1, fun s => (Geo.Proofs.TRANPolygonSM.step_eq s).2.1,
+   fun s => (Geo.Proofs.TRANPolygonSM.step_eq s).2.2.1, fun s => (Geo.Proofs.TRANPolygonSM.step_eq s).2.2.2.1,
+   fun s => (Geo.Proofs.TRANPolygonSM.step_eq s).2.2.2.2.1, fun s => (Geo.Proofs.TRANPolygonSM.step_eq s).2.2.2.2.2⟩
 
 end Geo.Proofs.C18
